@@ -17,6 +17,7 @@ import (
 	"verif/core"
 	"verif/gen"
 	"verif/mon"
+	"verif/sched"
 )
 
 // C01 — parsing is total: any source, any alias table, both panicnil settings.
@@ -27,6 +28,7 @@ type c01Case struct {
 	AllKind bool              `json:"all_kinds,omitempty"` // deliver through all four source kinds
 	Flaky   bool              `json:"flaky,omitempty"`     // deliver through readers with one transient failure, at every position
 	Shape   string            `json:"shape,omitempty"`     // a scaling family (work-bound probe)
+	Forced  bool              `json:"forced,omitempty"`    // run under forced schedules (here-document hand-over)
 	Kind    string            `json:"kind"`
 }
 
@@ -202,6 +204,20 @@ func c01Scaling(c *core.Ctx, cs c01Case) {
 func c01Exec(c *core.Ctx, cs c01Case) {
 	if cs.Shape != "" {
 		c01Scaling(c, cs)
+		return
+	}
+	if cs.Forced {
+		// the rare interleavings around the here-document hand-over are forced through
+		// the hooks: the call must still return under each of them
+		for _, m := range []sched.Mode{{Default: true, HoldPopWait: true}, {Default: true}, {Default: false}, {Default: false, LateReturn: true}} {
+			_, _, _, res := parseSched(string(cs.Src), m)
+			c.Eval(1)
+			c.Count("forced-schedule-runs", 1)
+			if res.PopWaitBeforePush {
+				c.Count("forced/lexer-waited-for-the-here-document-first", 1)
+			}
+		}
+		c01Quiesce(c)
 		return
 	}
 	var env *interp.ExecEnv
@@ -390,6 +406,25 @@ func c01Gen(c *core.Ctx) {
 		}
 		core.Do(c, c01Case{Src: []byte(strings.Join(parts, " ")), Flaky: true, Kind: "flaky-token-string"}, c01Exec)
 	})
+	// 1d. here-documents read by nested lexers, under forced schedules
+	for _, src := range []string{"echo $(cat <<E\nx\nE\n)\n", "a `cat <<E\nx\nE\n` b\n", "echo $(a <<E | b\nx\nE\n)\n", "x=$(cat <<-E\n\tE\n)\n", "echo \"$(cat <<E\n$(cat <<F\ny\nF\n)\nE\n)\"\n", "cat <<E\nx\nE\n", "{ cat <<E\nx\nE\n}\n", "echo $(cat <<E", "echo $(cat <<E\nx\n"} {
+		core.Do(c, c01Case{Src: []byte(src), Forced: true, Kind: "forced-schedules"}, c01Exec)
+	}
+	for i := 0; i < c.Pick(150, 5000); i++ {
+		r := c.Rand("forced", int64(i))
+		o := gen.Options{Budget: 1 + r.IntN(4), Heredocs: true, HDBias: true, MaxHD: 1 + r.IntN(2), LeadHD: true, NoNested: i%2 == 1, InParen: true}
+		inner := gen.New(r, o).Program().List
+		inner.Top = false
+		inner.Items[len(inner.Items)-1].NL = true
+		k := "cmdsub"
+		if o.NoNested {
+			k = "bq"
+		}
+		outer := gen.Simple("echo")
+		outer.Post = append(outer.Post, gen.Item{W: gen.W(gen.Part{K: k, List: inner})})
+		p := &gen.Program{List: &gen.CList{Top: true, Items: []*gen.AndOr{gen.AO(gen.Pipe(outer))}}}
+		core.Do(c, c01Case{Src: []byte(gen.Join(gen.Tokens(p, true), nil).Text), Forced: true, Kind: "forced-schedules"}, c01Exec)
+	}
 	// 1c. scaling families: work grows about linearly
 	var shapes []string
 	for k := range c01Shapes {
